@@ -134,7 +134,8 @@ uint DAC_VLS::access(uint pos, uint **seq) const {
   sequence[j] = get_field(levels, base_bits, ini);
   l_seq = 1;
 
-  while (bitget(((BitSequenceRG *)bS)->data, ini)) {
+  // The last level has no continuation bits (only the closing sentinel)
+  while ((j + 1 < (uint)nLevels) && bitget(((BitSequenceRG *)bS)->data, ini)) {
     rankini = bS->rank1(ini) - rankLevels[j];
     j++;
 
@@ -142,8 +143,6 @@ uint DAC_VLS::access(uint pos, uint **seq) const {
     sequence[j] = get_field(levels, base_bits, ini);
 
     l_seq++;
-    if (j == (uint)nLevels - 1)
-      break;
   }
   *seq = sequence;
   return l_seq;
